@@ -84,6 +84,33 @@ fn spec(id: &str) -> Spec {
             anchors: vec!["convert_local_fn_to_import"],
             rule: "convert_local_fn_to_import on any subset of local functions in any order, interleaved with add_import_func / builder additions / injections",
         },
+        "C12" => Spec {
+            alphabet: A_FUNC | A_RICH | A_ADD | A_DELETE | A_TO_IMPORT | A_INJECT | A_EXPORTS,
+            max_len: 8,
+            want_names: true,
+            only_names: false,
+            min_site_kinds: 0,
+            anchors: vec!["add_type.new", "add_type.dedup_hit"],
+            rule: "functions built through FunctionBuilder: 0-4 params/results, 0-5 locals of numeric / v128 / reference types added before and between                    instructions, 2-10 statements issued through the Opcode/MacroOpcode helpers (arithmetic, comparisons, conversions, locals, select,                    blocks/loops/ifs with br_if, loads/stores, u32_const/u64_const), optional set_name; finish_module interleaved with other function edits",
+        },
+        "C14" => Spec {
+            alphabet: A_FUNC | A_LOCALS | A_RICH | A_ADD | A_INJECT,
+            max_len: 10,
+            want_names: false,
+            only_names: false,
+            min_site_kinds: 0,
+            anchors: vec!["encode_internal"],
+            rule: "local additions through FunctionBuilder::add_local, FunctionModifier::add_local / add_locals, LocalFunction::add_local and                    ModuleIterator::add_local (ComponentIterator::add_local: see component sub-workload) with random value types on random functions,                    interleaved with builder additions and injections; returned LocalID must equal params + locals declared so far",
+        },
+        "C30" => Spec {
+            alphabet: A_GLOBAL | A_MEM | A_ADD | A_EXPORTS | A_DATA | A_RICH | A_FUNC,
+            max_len: 10,
+            want_names: false,
+            only_names: false,
+            min_site_kinds: 0,
+            anchors: vec!["encode_internal"],
+            rule: "module-level additions: add_global with every InitInstr variant valid for the type (NaN-payload f32/f64, v128, global.get, ref.func,                    ref.null), mod_global_init_expr, add_data (active on any memory / passive), add_local_memory / add_import_memory (memory64, shared,                    maximum), exports.add_export_func / add_export_mem",
+        },
         _ => Spec {
             // C29
             alphabet: A_FUNC | A_GLOBAL | A_ADD | A_DELETE | A_TO_IMPORT | A_REPLACE_IMPORT | A_NAMES,
@@ -277,6 +304,15 @@ impl Hist {
         if self.id == "C29" {
             // non-trivial for names: at least one named entity moved
             out.nontrivial = out.obs.iter().any(|(k, n)| k == "moved_entities" && *n > 0);
+        }
+        if matches!(self.id, "C12" | "C14" | "C30") {
+            let key = match self.id {
+                "C12" => "build",
+                "C14" => "add_local",
+                _ => "add_",
+            };
+            let n = o.model.log.iter().filter(|l| l.contains(key)).count();
+            out.nontrivial = n >= 1 && out.obs.iter().any(|(k, _)| k == "outputs_validated");
         }
         if self.id == "C09" {
             let deleted = o.model.log.iter().any(|l| l.starts_with("delete_") || l.starts_with("exports.delete"));
